@@ -16,6 +16,10 @@ def run(ctx):
     F = ctx.facts
     ctx.rule("C16.1", "every recursion cycle of the parser passes a depth guard")
     ctx.rule("C16.3", "byte-offset slicing of a user-supplied string (`&s[a..b]` with constant / length-derived bounds) is dominated by an ASCII or char-boundary check")
+    ctx.rule("C16.4", "no raw overflow-capable i64 arithmetic on query-supplied integers in the executor / planner / runtime pre-checks (outside the evaluator, whose numeric core is C23.1)")
+    ctx.rule("C16.5", "the payload of a Value::Int (a query-supplied integer) is never cast to an unsigned type without a sign test")
+    ctx.rule("C16.6", "chrono's panicking TimeDelta constructors (days / hours / ... panic when out of range) only receive arguments bounded by construction")
+    ctx.rule("C16.7", "a value produced by saturating_* arithmetic (so believed to reach the extremes) is not combined by a raw overflow-capable operation")
     ctx.rule("C16.2", "no unwrap/expect on a Result carrying one of the repository's error types in product code (an error must be returned, not turned into a panic)")
     nodes = sorted(i for i in F.bodies if i.startswith(PARSER_PREFIX) and "::tests::" not in i)
     ctx.floor("C16.1", "parser bodies", len(nodes), 60)
@@ -159,3 +163,123 @@ def run(ctx):
             k += 1
     ctx.floor("C16.3", "str slicing sites in the query crate", n3, 30)
     ctx.floor("C16.3", "constant-bounded str slices", nconst, 15)
+
+    # ---- clause 4 ---------------------------------------------------------
+    # Query-supplied integers reach the executor and its runtime pre-checks (e.g. the range() size estimate that is the only
+    # bound on an eagerly built list).  A raw `+ - *` / unary minus on i64 there panics in overflow-checked builds and wraps in
+    # release (letting a huge range through the size guard -> allocation failure).  The repository uses saturating_* / checked_* /
+    # unsigned_abs / i128 widening; today no raw i64 operation exists outside the evaluator.
+    RAW = {"Add", "Sub", "Mul", "AddWithOverflow", "SubWithOverflow", "MulWithOverflow"}
+    n4 = 0
+    for i, b in sorted(F.bodies.items()):
+        if not i.startswith("nervusdb_query::") or i.startswith("nervusdb_query::evaluator::") or "::tests::" in i:
+            continue
+        n4 += 1
+        k = 0
+        for blk in b.blocks:
+            if blk["c"]:
+                continue
+            for st in blk["s"]:
+                if st[0] != "a" or st[4] == "m":
+                    continue
+                rv = st[2]
+                raw = (rv[0] == "bin" and rv[1] in RAW and rv[4] == "i64") or (rv[0] == "un" and rv[1] == "Neg" and rv[3] == "i64")
+                if not raw:
+                    continue
+                ctx.instance("C16.4", "%s: raw %s on i64 (%s:%d)" % (i, rv[1], b.file, st[3]))
+                ctx.oblige(False, "C16.4", "%s:raw-%s#%d" % (b.root or i, rv[1].replace("WithOverflow", ""), k),
+                           "raw i64 `%s` on a query-supplied integer outside the evaluator: it panics on overflow in checked builds and wraps in release "
+                           "(a wrapped size estimate lets an unbounded allocation through)" % rv[1], "%s:%d" % (b.file, st[3]))
+                k += 1
+    ctx.instance("C16.4", "bodies scanned outside the evaluator: %d" % n4)
+    ctx.floor("C16.4", "query-crate bodies outside the evaluator", n4, 700)
+
+    # ---- clause 5: sign-losing casts of query integers ------------------------------------------
+    from ..mirutil import sign_guarded, value_root
+    SIGNED = ("i64", "i32", "isize", "i128", "i16", "i8")
+    n5 = 0
+    for i, b in sorted(F.bodies.items()):
+        if not i.startswith("nervusdb_query::") or "::tests::" in i:
+            continue
+        k = 0
+        for bi, blk in enumerate(b.blocks):
+            if blk["c"]:
+                continue
+            for st in blk["s"]:
+                if st[0] != "a":
+                    continue
+                rv = st[2]
+                if not (rv[0] == "cast" and rv[1] == "IntToInt" and rv[3] in SIGNED and rv[4].startswith("u")):
+                    continue
+                l = op_local(rv[2])
+                if l is None:
+                    continue
+                r = value_root(b, l)
+                o = b.origin(r) if r is not None and r >= 0 else None
+                direct = bool(o and o[0] == "place" and any(isinstance(p, list) and p[0] == "d" and p[1] == "Int" for p in o[1][1])
+                              and any(isinstance(p, list) and p[0] == "f" and "core_types::Value" in str(p[3]) for p in o[1][1]))
+                if not direct:
+                    continue
+                n5 += 1
+                ok = sign_guarded(b, bi, l)
+                ctx.instance("C16.5", "%s: Value::Int payload cast %s->%s at %s:%d sign-tested=%s" % (i, rv[3], rv[4], b.file, st[3], ok))
+                ctx.oblige(ok, "C16.5", "%s:int-payload-as-%s#%d" % (b.root or i, rv[4], k),
+                           "a query-supplied integer is cast to %s without a sign test: a negative argument becomes a huge offset and the arithmetic / "
+                           "slicing that follows overflows or indexes out of range (panic)" % rv[4], "%s:%d" % (b.file, st[3]))
+                k += 1
+    ctx.floor("C16.5", "Value::Int payloads cast to unsigned", n5, 2)
+
+    # ---- clause 6: chrono panicking constructors --------------------------------------------------
+    from .. import bits as BITS
+    # TimeDelta::<unit>(n) panics when n * unit overflows i64 milliseconds: n must stay below 2^(63 - log2(ms per unit))
+    PANICKY = {"weeks": 33, "days": 36, "hours": 41, "minutes": 47, "seconds": 53, "milliseconds": 63}
+    n6 = 0
+    for i, b in sorted(F.bodies.items()):
+        if not i.startswith("nervusdb_query::") or "::tests::" in i:
+            continue
+        k = 0
+        for c in b.calls():
+            short = c.name.split("::")[-1]
+            if "chrono::time_delta::TimeDelta::" not in c.name or short not in PANICKY:
+                continue
+            n6 += 1
+            nb = BITS.bits(b, c.args[0], "i64")
+            ok = nb <= PANICKY[short]
+            ctx.instance("C16.6", "%s: TimeDelta::%s(arg fits %d signed bits, limit %d) at %s" % (i, short, nb, PANICKY[short], c.loc()))
+            ctx.oblige(ok, "C16.6", "%s:TimeDelta::%s#%d" % (b.root or i, short, k),
+                       "chrono's TimeDelta::%s panics when its argument is out of range and this argument is not bounded by construction "
+                       "(a query-supplied duration component): use try_%s" % (short, short), c.loc())
+            k += 1
+    ctx.floor("C16.6", "panicking TimeDelta constructor calls", n6, 6)
+
+    # ---- clause 7: raw arithmetic on saturated values ----------------------------------------------
+    RAWS = {"Add", "Sub", "Mul", "AddWithOverflow", "SubWithOverflow", "MulWithOverflow"}
+    n7 = nsat = 0
+    for i, b in sorted(F.bodies.items()):
+        if not i.startswith("nervusdb_query::") or "::tests::" in i:
+            continue
+        nsat += sum(1 for c in b.calls() if c.name.split("::")[-1].startswith("saturating_") and "core::num::" in c.name)
+        k = 0
+        for blk in b.blocks:
+            if blk["c"]:
+                continue
+            for st in blk["s"]:
+                if st[0] != "a" or st[4] == "m":
+                    continue
+                rv = st[2]
+                if not (rv[0] == "bin" and rv[1] in RAWS and rv[4] in SIGNED):
+                    continue
+                for opnd in (rv[2], rv[3]):
+                    l = op_local(opnd)
+                    if l is None:
+                        continue
+                    o = b.origin(value_root(b, l))
+                    if o and o[0] == "call" and o[1].name.split("::")[-1].startswith("saturating_") and "core::num::" in o[1].name:
+                        n7 += 1
+                        ctx.instance("C16.7", "%s: raw %s on the result of %s (%s:%d)" % (i, rv[1], o[1].name.split("::")[-1], b.file, st[3]))
+                        ctx.oblige(False, "C16.7", "%s:raw-%s-on-saturated#%d" % (b.root or i, rv[1].replace("WithOverflow", ""), k),
+                                   "the operand comes from %s — the code expects it to reach i64::MIN/MAX — and is then combined with a raw `%s`, "
+                                   "which overflows (panic in checked builds) exactly in that case" % (o[1].name.split("::")[-1], rv[1]), "%s:%d" % (b.file, st[3]))
+                        k += 1
+    ctx.instance("C16.7", "saturating_* calls in the query crate: %d; raw operations on their results: %d" % (nsat, n7))
+    ctx.floor("C16.7", "saturating_* calls in the query crate", nsat, 20)
